@@ -1,6 +1,7 @@
 package checks
 
 import (
+	"os"
 	"strings"
 	"testing"
 
@@ -136,4 +137,40 @@ func TestReplay_C09_SnapshotInsideUnstableTail(t *testing.T) {
 	if res.Sim.Stats.C["snap.accepted_inside_unstable_tail"] == 0 {
 		t.Logf("trace:\n%s", strings.Join(res.Sim.Trace, "\n"))
 	}
+}
+
+// Scripted reach test (C06): node 2 wins an election while an entry of the
+// old term is still in its unstable log (its write was queued when the
+// campaign started, so the acknowledgement carries the old term and is
+// ignored); the first acknowledgement from a follower covers only that entry.
+func TestReplay_C06_LeaderWithOldTermUnstableEntry(t *testing.T) {
+	w := world(3, []uint64{1, 2, 3}, func(id uint64, o *sim.NodeOpts) {
+		o.Async = id == 2
+		o.MaxSizePerMsg = 1
+	})
+	res := sim.RunScript(w, []string{"C06", "C01"}, nil, func(s *sim.Sim) {
+		n1, n2 := s.Nodes[1], s.Nodes[2]
+		elect(s, 1)
+		n2.SlowAppend = true
+		cutPair(s, 1, 3)
+		s.Propose(n1, 8)
+		s.Stabilize(4)
+		s.Isolate(n1)
+		s.TickUntilCampaign(n2)
+		n2.SlowAppend, n2.SlowAck = false, true
+		for r := 0; r < 10 && n2.RN.BasicStatus().RaftState != raft.StateLeader; r++ {
+			s.Stabilize(1)
+			s.HandOverAllButCurrentTermAcks(n2)
+		}
+		s.Stabilize(5)
+		n2.SlowAck = false
+		s.Stabilize(5)
+	})
+	for _, k := range []string{"storage.ack_of_older_term", "commit.leader_advance"} {
+		t.Logf("%s = %d", k, res.Sim.Stats.C[k])
+	}
+	if os.Getenv("VERIF_DEBUG") != "" {
+		t.Logf("trace:\n%s", strings.Join(res.Sim.Trace, "\n"))
+	}
+	report(t, res)
 }
